@@ -29,6 +29,7 @@ def case_strategy(draw):
     spec["cols"].append({"name": "s", "kind": "int", "values": [(i * 5 + seed) % (t + 1) for i, t in enumerate(trials)]})
     spec["cols"].append({"name": "n", "kind": "int", "values": trials})
     spec["cols"].append({"name": "t", "kind": "float", "values": [3.0] * n})  # an exposure that happens to be constant in training
+    spec["cols"].append({"name": "nc", "kind": "int", "values": [30] * n})  # ... and a number of trials that is the same in every training row
     # a Categorical that declares a category no row has (what is left after filtering rows): 'zz' never occurs
     spec["cols"].append({"name": "cg", "kind": "cat", "values": ["m" if (i + seed) % 3 else "n" for i in range(n)], "categories": ["n", "zz", "m"], "ordered": False})
     kind = draw(st.sampled_from(["binary", "binary", "offset", "offset", "prop", "prop", "identity", "alias", "alias", "prop_invalid"]))
@@ -48,11 +49,11 @@ def case_strategy(draw):
         c["by_keyword"] = draw(st.integers(0, 4)) == 0  # offset(x=...): the argument passed by its name
     elif kind == "prop":
         c["fn"] = draw(st.sampled_from(["prop", "p", "proportion"]))
-        c["trials"] = draw(st.sampled_from(["n", "n", "40", "trials=n", "trials=40", "n + 1"]))
+        c["trials"] = draw(st.sampled_from(["n", "n", "40", "trials=n", "trials=40", "n + 1", "nc", "trials=nc"]))
         c["spelling"] = draw(st.sampled_from(["positional", "positional", "successes=", "trials_first"]))  # both arguments by keyword, in either order
         c["float_counts"] = draw(st.integers(0, 3)) == 0  # integer-valued float columns are valid counts
     elif kind == "prop_invalid":
-        c["what"] = draw(st.sampled_from(["float_successes", "successes_gt_trials", "successes_gt_trials_one_row", "float_successes_one_row", "float_trials", "float_constant", "successes_not_a_name", "missing_success_kept", "large_fraction"]))
+        c["what"] = draw(st.sampled_from(["float_successes", "successes_gt_trials", "successes_gt_trials_one_row", "float_successes_one_row", "float_trials", "float_constant", "successes_not_a_name", "missing_success_kept", "large_fraction", "float32_successes"]))
     elif kind == "identity":
         c["expr"] = draw(st.sampled_from(["x + z", "x * 2", "x ** 2", "(x + z) / 2", "-x", "x - z * 3", "np.abs(x)", "x > 0"]))
         c["brace"] = draw(st.booleans())
@@ -72,8 +73,8 @@ def new_frame(case, drop=()):
         for c in s["cols"]:
             if c["kind"] == "float":
                 c["values"] = [round(v * 1.5 + case["fresh_seed"], 6) for v in c["values"]]
-            elif c["name"] == "n":
-                c["values"] = [v + 10 * case["fresh_seed"] for v in c["values"]]
+            elif c["name"] in ("n", "nc"):
+                c["values"] = [v + 10 * case["fresh_seed"] + (i if c["name"] == "nc" else 0) for i, v in enumerate(c["values"])]
     s["cols"] = [c for c in s["cols"] if c["name"] not in drop]
     return frames.build(s)
 
@@ -207,7 +208,7 @@ def judge(ctx, case):
         except Exception as e:  # pylint: disable=broad-except
             ctx.fail("prop", full, f"{formula!r} raised {type(e).__name__}: {e}", "training:" + core.exc_key(e))
             return
-        want_t = np.broadcast_to(np.asarray(eval(texpr, {}, {"n": frame["n"].to_numpy()})), (len(frame),))  # pylint: disable=eval-used
+        want_t = np.broadcast_to(np.asarray(eval(texpr, {}, {"n": frame["n"].to_numpy(), "nc": frame["nc"].to_numpy()})), (len(frame),))  # pylint: disable=eval-used
         if got.shape != (len(frame), 2) or not np.array_equal(got[:, 0], frame["s"].to_numpy()) or not np.array_equal(got[:, 1], want_t):
             ctx.fail("prop", full, f"{formula!r}: response rows are not (successes, trials)", "training_values")
         new = new_frame(case, drop=("s", "y"))
@@ -217,7 +218,7 @@ def judge(ctx, case):
         except Exception as e:  # pylint: disable=broad-except
             ctx.fail("prop", full, f"{formula!r}: response.evaluate_new_data raised {type(e).__name__}: {e}", "prediction:" + type(e).__name__)
             return
-        want2 = np.broadcast_to(np.asarray(eval(texpr, {}, {"n": new["n"].to_numpy()}), dtype=float), (len(new),))  # pylint: disable=eval-used
+        want2 = np.broadcast_to(np.asarray(eval(texpr, {}, {"n": new["n"].to_numpy(), "nc": new["nc"].to_numpy()}), dtype=float), (len(new),))  # pylint: disable=eval-used
         if g2.shape != (len(new),) or not np.array_equal(g2, want2):
             ctx.fail("prop", full, f"{formula!r}: at prediction the trials of the new frame are {want2.tolist()}, got {g2.tolist()}", "prediction_values")
         return
@@ -243,6 +244,9 @@ def judge(ctx, case):
             formula = "prop(s, n) ~ x"
         elif what == "float_constant":
             formula = "prop(s, 40.5) ~ x"
+        elif what == "float32_successes":
+            fr["s"] = (fr["s"].astype("float32") + np.float32(0.5))  # fractions in a narrower float type
+            formula = "prop(s, 50) ~ x"
         elif what == "large_fraction":
             # 40000.3 successes out of 50000: not an integer, however small the fraction is relative to the count
             fr["s"] = fr["s"].astype(float)
